@@ -113,9 +113,6 @@ variable (cfg : WireCfg ℚ) (losses delays : List ℚ)
 /-- `current_time` of packet `id` -/
 def A.ctOf (a : A) (id : Int) : ℚ := a.cts.getD id.toNat 0
 
-/-- the loss-draw counter after one more packet has been taken from the store -/
-def nlNext (nl : Nat) : Nat := match Wire.lossOn cfg with | some _ => nl + 1 | none => nl
-
 /-- **the wire's own arithmetic**: the server is free from `fr`; it takes packet `(id, a)` at `max(a, fr)`; a lost packet
 is dropped at once; another one leaves after `d - queued` more if that is positive, at once otherwise -/
 def deliv : ℚ → Nat → Nat → List (Int × ℚ) → List (Int × ℚ)
